@@ -718,3 +718,230 @@ pub fn abandoned(ctx: &Ctx) -> Report {
     let n = ctx.n(20_000, 10_000_000);
     par_cases(ctx, "abandoned", n, ctx.secs(15, 300), |i, rng, rep| run_abandon_case(i, rng, rep, false))
 }
+
+
+// ---------------- searches nested inside adapters ----------------
+
+/// A user-defined adapter may run a nested Search on the same connection while the outer one is in
+/// progress, configured with the rest of its own chain (`adapter_chain_tail()`, as the documentation
+/// suggests). Each of the two searches must hand its caller exactly what the server sent under its
+/// own message ID: entries, and the referral URIs that EntriesOnly folds into the final result.
+mod nested {
+    use async_trait::async_trait;
+    use ldap3::adapters::Adapter;
+    use ldap3::result::{LdapResult, Result};
+    use ldap3::{ResultEntry, Scope, SearchEntry, SearchStream};
+    use std::sync::{Arc, Mutex};
+
+    #[derive(Debug, Default)]
+    pub struct NestedOut {
+        pub dns: Vec<String>,
+        pub result: Option<LdapResult>,
+        pub error: Option<String>,
+    }
+
+    /// On the entry number `at` of the outer search, list "below" it with a nested search that uses
+    /// the downstream adapters of the search the adapter is part of.
+    #[derive(Clone, Debug)]
+    pub struct Expander {
+        pub at: usize,
+        pub seen: usize,
+        pub out: Arc<Mutex<NestedOut>>,
+    }
+
+    #[async_trait]
+    impl<'a> Adapter<'a, String, Vec<String>> for Expander {
+        async fn start(&mut self, stream: &mut SearchStream<'a, String, Vec<String>>, base: &str, scope: Scope, filter: &str, attrs: Vec<String>) -> Result<()> {
+            stream.start(base, scope, filter, attrs).await
+        }
+        async fn next(&mut self, stream: &mut SearchStream<'a, String, Vec<String>>) -> Result<Option<ResultEntry>> {
+            let re = match stream.next().await? {
+                Some(re) => re,
+                None => return Ok(None),
+            };
+            if self.seen == self.at {
+                let tail = stream.adapter_chain_tail().await;
+                let mut ldap = stream.ldap_handle().clone();
+                let mut dns = vec![];
+                let mut error = None;
+                let mut result = None;
+                match ldap.streaming_search_with(tail, "op=nested", Scope::OneLevel, "(objectClass=*)", vec!["*".to_string()]).await {
+                    Ok(mut sub) => {
+                        loop {
+                            match sub.next().await {
+                                Ok(Some(e)) => dns.push(SearchEntry::construct(e).dn),
+                                Ok(None) => break,
+                                Err(e) => {
+                                    error = Some(e.to_string());
+                                    break;
+                                }
+                            }
+                        }
+                        result = Some(sub.finish().await);
+                    }
+                    Err(e) => error = Some(e.to_string()),
+                }
+                let mut o = self.out.lock().unwrap();
+                o.dns = dns;
+                o.result = result;
+                o.error = error;
+            }
+            self.seen += 1;
+            Ok(Some(re))
+        }
+        async fn finish(&mut self, stream: &mut SearchStream<'a, String, Vec<String>>) -> LdapResult {
+            stream.finish().await
+        }
+    }
+}
+
+fn run_nested_case(i: u64, rng: &mut Rng, rep: &mut Report, verbose: bool) {
+    use ldap3::adapters::{Adapter, EntriesOnly};
+    use std::sync::{Arc, Mutex};
+    // outer: items before the nested search starts, and after it
+    let n_before_refs = rng.usize(4);
+    let n_entries = 1 + rng.usize(4);
+    let expand_at = rng.usize(n_entries);
+    let n_after_refs = rng.usize(3);
+    let nested_entries = rng.usize(4);
+    let nested_refs = rng.usize(3);
+    let nested_done_refs = rng.bool();
+    let rt = runtime(rng.next());
+    let out = Arc::new(Mutex::new(nested::NestedOut::default()));
+    let out2 = out.clone();
+    let (outer_dns, outer_res, note) = rt.block_on(async move {
+        let c = connect();
+        let mut ldap = c.ldap;
+        let mut server = c.server;
+        let srv = tokio::spawn(async move {
+            let enc = |id: i64, r: &Resp| ber::encode_min(&resp_node(id, r, None));
+            let outer = match server.request().await.and_then(|w| w.msg.ok()) {
+                Some(m) => m.id,
+                None => return,
+            };
+            let mut b = vec![];
+            for k in 0..n_before_refs {
+                b.extend_from_slice(&enc(outer, &Resp::Reference(vec![format!("ldap://outer/{}", k)])));
+            }
+            for k in 0..=expand_at {
+                b.extend_from_slice(&enc(outer, &Resp::Entry { dn: format!("e=outer.{}", k).into_bytes(), attrs: vec![] }));
+            }
+            server.send(&b);
+            // the nested search is started by the adapter when it sees entry number expand_at
+            let nested = match server.request().await.and_then(|w| w.msg.ok()) {
+                Some(m) => m.id,
+                None => return,
+            };
+            let mut b = vec![];
+            for k in 0..nested_entries.max(nested_refs) {
+                if k < nested_refs {
+                    b.extend_from_slice(&enc(nested, &Resp::Reference(vec![format!("ldap://nested/{}", k)])));
+                }
+                if k < nested_entries {
+                    b.extend_from_slice(&enc(nested, &Resp::Entry { dn: format!("e=nested.{}", k).into_bytes(), attrs: vec![] }));
+                }
+                // the outer search goes on meanwhile
+                if k == 0 {
+                    for j in 0..n_after_refs {
+                        b.extend_from_slice(&enc(outer, &Resp::Reference(vec![format!("ldap://outer-late/{}", j)])));
+                    }
+                }
+            }
+            if nested_entries.max(nested_refs) == 0 {
+                for j in 0..n_after_refs {
+                    b.extend_from_slice(&enc(outer, &Resp::Reference(vec![format!("ldap://outer-late/{}", j)])));
+                }
+            }
+            let mut nres = Res::ok("t:nested");
+            if nested_done_refs {
+                nres.refs = Some(vec!["ldap://nested-done/0".into()]);
+            }
+            b.extend_from_slice(&enc(nested, &Resp::Done(nres)));
+            for k in expand_at + 1..n_entries {
+                b.extend_from_slice(&enc(outer, &Resp::Entry { dn: format!("e=outer.{}", k).into_bytes(), attrs: vec![] }));
+            }
+            b.extend_from_slice(&enc(outer, &Resp::Done(Res::ok("t:outer"))));
+            server.send(&b);
+            server.wait_closed().await;
+        });
+        let adapters: Vec<Box<dyn Adapter<'static, String, Vec<String>>>> = vec![Box::new(nested::Expander { at: expand_at, seen: 0, out: out2 }), Box::new(EntriesOnly::new())];
+        let mut dns = vec![];
+        let mut res = None;
+        let mut note = String::new();
+        match world::watchdog(async {
+            let mut st = ldap.streaming_search_with(adapters, "op=outer", Scope::Subtree, "(objectClass=*)", vec!["*".to_string()]).await?;
+            while let Some(e) = st.next().await? {
+                dns.push(ldap3::SearchEntry::construct(e).dn);
+            }
+            res = Some(st.finish().await);
+            Ok::<_, ldap3::LdapError>(())
+        })
+        .await
+        {
+            Ok(Ok(())) => {}
+            Ok(Err(e)) => note = format!("outer search failed: {}", e),
+            Err(()) => note = "outer search hangs".into(),
+        }
+        drop(ldap);
+        srv.abort();
+        let _ = c.driver.await;
+        (dns, res, note)
+    });
+    let replay = json!({"lane":"nested_searches","case":i});
+    if !note.is_empty() {
+        rep.violation("C01:nested-search:operation-disturbed", note.clone(), replay.clone());
+    }
+    let want_outer_dns: Vec<String> = (0..n_entries).map(|k| format!("e=outer.{}", k)).collect();
+    let mut want_outer_refs: Vec<String> = (0..n_before_refs).map(|k| format!("ldap://outer/{}", k)).collect();
+    want_outer_refs.extend((0..n_after_refs).map(|j| format!("ldap://outer-late/{}", j)));
+    let mut want_nested_refs: Vec<String> = vec![];
+    if nested_done_refs {
+        want_nested_refs.push("ldap://nested-done/0".into());
+    }
+    want_nested_refs.extend((0..nested_refs).map(|k| format!("ldap://nested/{}", k)));
+    let want_nested_dns: Vec<String> = (0..nested_entries).map(|k| format!("e=nested.{}", k)).collect();
+    if note.is_empty() {
+        if outer_dns != want_outer_dns {
+            rep.violation("C01:nested-search:outer-entries-differ", format!("want {:?} got {:?}", want_outer_dns, outer_dns), replay.clone());
+        }
+        if let Some(r) = &outer_res {
+            if r.refs != want_outer_refs || r.text != "t:outer" {
+                let foreign = r.refs.iter().any(|u| u.contains("nested"));
+                rep.violation(if foreign { "C01:nested-search:outer-result-carries-the-nested-search's-referrals" } else { "C01:nested-search:outer-result-differs" }, format!("want refs {:?} got {:?} text {:?}", want_outer_refs, r.refs, r.text), replay.clone());
+            }
+        }
+        let o = out.lock().unwrap();
+        if let Some(e) = &o.error {
+            rep.violation("C01:nested-search:operation-disturbed", format!("nested search: {}", e), replay.clone());
+        } else {
+            if o.dns != want_nested_dns {
+                rep.violation("C01:nested-search:nested-entries-differ", format!("want {:?} got {:?}", want_nested_dns, o.dns), replay.clone());
+            }
+            match &o.result {
+                Some(r) => {
+                    if r.refs != want_nested_refs || r.text != "t:nested" {
+                        let foreign = r.refs.iter().any(|u| u.contains("outer"));
+                        rep.violation(if foreign { "C01:nested-search:result-carries-referrals-sent-under-another-message-id" } else { "C01:nested-search:nested-result-differs" }, format!("want refs {:?} got {:?} text {:?}", want_nested_refs, r.refs, r.text), replay.clone());
+                    }
+                }
+                None => rep.violation("C01:nested-search:nested-search-never-ran", format!("expand_at {}", expand_at), replay.clone()),
+            }
+        }
+    }
+    if verbose {
+        println!("before-refs {} entries {} expand-at {} after-refs {} nested {}+{} -> outer {:?} {:?}", n_before_refs, n_entries, expand_at, n_after_refs, nested_entries, nested_refs, outer_dns, outer_res.as_ref().map(|r| r.refs.clone()));
+    }
+    rep.count("nested_searches_checked", 1);
+    if n_before_refs > 0 {
+        rep.count("nested_searches_started_after_the_outer_search_had_collected_referrals", 1);
+    }
+    if i < 2 {
+        rep.sample(json!({"lane":"nested_searches","case":i,"outer_referrals_before":n_before_refs,"outer_entries":n_entries,"nested_started_at_entry":expand_at,"nested_entries":nested_entries,"nested_referrals":nested_refs}));
+    }
+    rep.case(if n_before_refs > 0 { Some(fnv(format!("{}{}{}{}{}{}{}", n_before_refs, n_entries, expand_at, n_after_refs, nested_entries, nested_refs, nested_done_refs).as_bytes())) } else { None });
+}
+
+pub fn nested_searches(ctx: &Ctx) -> Report {
+    let n = ctx.n(10_000, 5_000_000);
+    par_cases(ctx, "nested_searches", n, ctx.secs(15, 300), |i, rng, rep| run_nested_case(i, rng, rep, false))
+}
